@@ -3,6 +3,6 @@ NEXT Next
 INVARIANT EmitCase
 CHECK_DEADLOCK FALSE
 CONSTANTS
-  AllModeLen = 3
+  AllModeLen = 2
   L = 4
   Schedules = {"each", "glue_next", "glue_both"}
